@@ -60,6 +60,7 @@ pub fn run(ctx: &Ctx, rep: &mut Report) {
             crate::legacy::run(rep, "C17");
         }
         let mut u = U::new();
+        u.blanket_ok = true;
         let mut owner = u.principal();
         let mut former_owners: Vec<Address> = Vec::new();
         let ops_c = u.env.register(AxelarOperators, (&owner,));
